@@ -698,6 +698,16 @@ class Node:
         limit = app.affinity.limits[self.level]
         return count < limit
 
+    def check_app_affinity_limit_above(self, app):
+        """Check app affinity limits on all nodes above this one.
+        """
+        node = self.parent
+        while node:
+            if not node.check_app_affinity_limit(app):
+                return False
+            node = node.parent
+        return True
+
     def put(self, _app):
         """Abstract method, should never be called.
         """
@@ -1700,7 +1710,10 @@ class Cell(Bucket):
 
                 evicted_from, app_expiry = evicted[app]
                 del evicted[app]
-                if evicted_from.restore(app, app_expiry):
+                # Restore puts the app straight on the server, limits of the
+                # levels above it may have been used up in the meantime.
+                if (evicted_from.check_app_affinity_limit_above(app) and
+                        evicted_from.restore(app, app_expiry)):
                     app.evicted = False
                     continue
 
@@ -1741,9 +1754,10 @@ class Cell(Bucket):
                                             evicted_app.placement_expiry)
                     evicted_app_server.remove(evicted_app.name)
 
-                    # TODO: we need to check affinity limit constraints on
-                    #       each level, all the way to the top.
-                    if evicted_app_server.put(app):
+                    # Server.put checks the server level only, check affinity
+                    # limit constraints on each level, all the way to the top.
+                    if (evicted_app_server.check_app_affinity_limit_above(
+                            app) and evicted_app_server.put(app)):
                         break
 
             # Placement failed.
